@@ -123,6 +123,10 @@ def gen_isa(rnd, *, want_macros=None, small=False, allow_numeric_enum=False):
     mnems = rnd.sample(MNEMONIC_POOL, n_instr)
     if 'nop' not in mnems:
         mnems[0] = 'nop'
+    if rnd.random() < 0.2:
+        # a family X.Y / X / Y (the order in which the names are tried decides whether `X.Y` is cut at `.`)
+        fam = rnd.choice([['mov.w', 'mov', 'w'], ['st.w', 'st', 'w'], ['ld.b', 'ld', 'ldx']])
+        mnems = fam + [m for m in mnems if m not in fam and m not in ('w',)]
     instructions = {}
     sigs = {}
     opcode = 0
